@@ -1338,6 +1338,26 @@ tsk_individual_table_append_columns(tsk_individual_table_t *self, tsk_size_t num
         ret = tsk_trace_error(TSK_ERR_BAD_PARAM_VALUE);
         goto out;
     }
+    /* Check all the ragged columns before anything is appended, so that a call
+     * that is refused leaves the table as it was. */
+    if (location != NULL) {
+        ret = check_offsets(num_rows, location_offset, 0, false);
+        if (ret != 0) {
+            goto out;
+        }
+    }
+    if (parents != NULL) {
+        ret = check_offsets(num_rows, parents_offset, 0, false);
+        if (ret != 0) {
+            goto out;
+        }
+    }
+    if (metadata != NULL) {
+        ret = check_offsets(num_rows, metadata_offset, 0, false);
+        if (ret != 0) {
+            goto out;
+        }
+    }
     ret = tsk_individual_table_expand_main_columns(self, (tsk_size_t) num_rows);
     if (ret != 0) {
         goto out;
@@ -3640,6 +3660,18 @@ tsk_site_table_append_columns(tsk_site_table_t *self, tsk_size_t num_rows,
         goto out;
     }
 
+    /* Check all the ragged columns before anything is appended, so that a call
+     * that is refused leaves the table as it was. */
+    ret = check_offsets(num_rows, ancestral_state_offset, 0, false);
+    if (ret != 0) {
+        goto out;
+    }
+    if (metadata != NULL) {
+        ret = check_offsets(num_rows, metadata_offset, 0, false);
+        if (ret != 0) {
+            goto out;
+        }
+    }
     ret = tsk_site_table_expand_main_columns(self, num_rows);
     if (ret != 0) {
         goto out;
@@ -4360,6 +4392,18 @@ tsk_mutation_table_append_columns(tsk_mutation_table_t *self, tsk_size_t num_row
         goto out;
     }
 
+    /* Check all the ragged columns before anything is appended, so that a call
+     * that is refused leaves the table as it was. */
+    ret = check_offsets(num_rows, derived_state_offset, 0, false);
+    if (ret != 0) {
+        goto out;
+    }
+    if (metadata != NULL) {
+        ret = check_offsets(num_rows, metadata_offset, 0, false);
+        if (ret != 0) {
+            goto out;
+        }
+    }
     ret = tsk_mutation_table_expand_main_columns(self, num_rows);
     if (ret != 0) {
         goto out;
@@ -6283,6 +6327,16 @@ tsk_provenance_table_append_columns(tsk_provenance_table_t *self, tsk_size_t num
     if (timestamp == NULL || timestamp_offset == NULL || record == NULL
         || record_offset == NULL) {
         ret = tsk_trace_error(TSK_ERR_BAD_PARAM_VALUE);
+        goto out;
+    }
+    /* Check all the ragged columns before anything is appended, so that a call
+     * that is refused leaves the table as it was. */
+    ret = check_offsets(num_rows, timestamp_offset, 0, false);
+    if (ret != 0) {
+        goto out;
+    }
+    ret = check_offsets(num_rows, record_offset, 0, false);
+    if (ret != 0) {
         goto out;
     }
     ret = tsk_provenance_table_expand_main_columns(self, num_rows);
